@@ -250,6 +250,7 @@ pub fn run_check(prop: &str, tier: Tier, seed: u64) -> i32 {
 		"C01" => c01(tier, seed),
 		"C09" => c09(tier, seed),
 		"C12" => c12(tier, seed),
+		"C07" => c07(tier, seed),
 		"C02" => c02(tier, seed),
 		"C08" => c08(tier, seed),
 		"C10" => c10(tier, seed),
@@ -490,6 +491,9 @@ pub fn replay(path: &str) -> i32 {
 				println!("  {l}");
 			}
 			let mut f = mine(&prop, &r);
+			if prop == "C07" {
+				f.extend(c07_eval(&case, &r).0);
+			}
 			if prop == "C12" {
 				let api = c["c12"]["api"].as_str().unwrap_or("?").to_string();
 				let kind = c["c12"]["kind"].as_str().unwrap_or("?").to_string();
@@ -980,5 +984,171 @@ fn c12(tier: Tier, seed: u64) -> i32 {
 	ctx.require_label("c12.fault.try", 500);
 	ctx.require_label("c12.fault.lock", 500);
 	ctx.require_label("c12.persistent_fired", 300);
+	ctx.finish()
+}
+
+
+/// steps that lock (and, where possible, read) every collection of the world once
+fn use_every_collection(world: &WorldSpec) -> Vec<(u8, Step)> {
+	let sem = Sem::new(world);
+	let mut steps = vec![(0u8, Step::GetKey)];
+	for c in 0..world.colls.len() {
+		let t = TargetRef::Coll(c);
+		steps.push((0, Step::Acquire { target: t, read: false, try_: false }));
+		steps.push((0, Step::GuardOps { ops: vec![BodyOp::Touch] }));
+		steps.push((0, Step::Release { how: ReleaseHow::UnlockFn }));
+		if sem.sharable(t) {
+			steps.push((0, Step::Scoped { target: t, read: true, try_: false, owned_key: false, body: vec![BodyOp::Touch] }));
+		}
+	}
+	steps
+}
+
+fn c07_eval(case: &SeqCase, r: &RunResult) -> (Vec<Finding>, bool, Vec<String>) {
+	let sem = Sem::new(&case.world);
+	let mut out = Vec::new();
+	let mut nontrivial = false;
+	let mut labels = Vec::new();
+	for (ci, c) in case.world.colls.iter().enumerate() {
+		if r.skipped_colls.contains(&ci) {
+			continue;
+		}
+		let checked = c.ctor == Ctor::TryNew;
+		let rejected = r.rejected.contains(&ci);
+		let dup = sem.has_duplicate(ci);
+		let kind = format!("{:?}<{:?}>", c.kind, c.cont);
+		if checked {
+			labels.push(format!("c07.{}.{}", format!("{:?}", c.kind).to_lowercase(), if dup { "dup" } else { "nodup" }));
+		}
+		if rejected && !dup {
+			out.push(Finding {
+				prop: "C07",
+				sig: format!("false-positive|{:?}", c.kind),
+				detail: format!("{kind}::try_new rejected collection C{ci} = {:?} although no lock is reachable twice (units {:?})", c.content, sem.own_units[ci]),
+				step: None,
+				tid: 0,
+			});
+		}
+		if !rejected && dup {
+			out.push(Finding {
+				prop: "C07",
+				sig: format!("false-negative|{:?}", c.kind),
+				detail: format!("{kind}::{:?} accepted collection C{ci} = {:?} although a lock is reachable twice (units {:?})", c.ctor, c.content, sem.own_units[ci]),
+				step: None,
+				tid: 0,
+			});
+		}
+		// classification
+		let u = &sem.own_units[ci];
+		let nested = match &c.content {
+			Content::ByRef(m) => m.iter().any(|x| matches!(x, MemberSpec::Coll(_) | MemberSpec::Inner(..) | MemberSpec::Wrap(_))),
+			Content::ByVal(m) => m.iter().any(|x| matches!(x, OMemberSpec::Coll(_))),
+		};
+		if checked && dup {
+			let mut nonadj = false;
+			for i in 0..u.len() {
+				for j in (i + 2)..u.len() {
+					if u[i] == u[j] && !(i + 1..j).any(|k| u[k] == u[i]) {
+						nonadj = true;
+					}
+				}
+			}
+			if (u.len() >= 3 && nonadj) || nested {
+				nontrivial = true;
+				labels.push(if nested { "c07.dup_hidden_in_nested_or_wrapper".into() } else { "c07.dup_nonadjacent".into() });
+			}
+		} else if checked && u.len() >= 3 && nested {
+			nontrivial = true;
+		}
+	}
+	// a collection that was accepted must be usable
+	for f in &r.findings {
+		if matches!(f.prop, "C04" | "C02" | "C05" | "C01" | "PANIC") {
+			out.push(Finding { prop: "C07", sig: format!("accepted-but-unusable|{}", f.sig), ..f.clone() });
+		}
+	}
+	(out, nontrivial, labels)
+}
+
+fn c07(tier: Tier, seed: u64) -> i32 {
+	let mut ctx = CheckCtx::new("C07", "exploration", tier, seed);
+	ctx.rule = "Member lists of length 0..6 over <= 5 leaves (Mutex / RwLock, Poisonable wrappers, inline Poisonable<&lock>) and nested members (references to boxed / ref / retrying / owned collections, by-value members of other collections, Poisonable collections), duplicates allowed at any pair of positions, for BoxedLockCollection::try_new, RefLockCollection::try_new and RetryingLockCollection::try_new; oracle: try_new(..) is None iff the flattened unit list of the reference model has a repeated unit (an owned collection counts as one unit); every accepted collection is locked once (and read once where sharable) with the C04/C02 oracles. Plus the exhaustive enumeration of ALL member lists of length <= 5 (thorough: <= 6) over 4 leaves for the three constructors. The compile-time half (new / new_ref reject inputs containing references) is decided by the TYPES engine (families C07-*). Non-trivial = a list with a duplicate whose two occurrences are not adjacent in declared order (length >= 3), or a duplicate hidden inside a nested member / wrapper, or a duplicate-free nested list of >= 3 units; distinct = hash of the decoded world.".into();
+	let mut wcfg = WorldCfg::default();
+	wcfg.allow_dups = true;
+	wcfg.max_members = 6;
+	wcfg.min_colls = 1;
+	wcfg.max_colls = 5;
+	wcfg.p_byval = 50;
+	wcfg.p_nested = 110;
+	wcfg.p_copy_permuted = 50;
+	let opts = Opts::default();
+	let n = tier.pick(120_000, 3_000_000);
+	ctx.search("seq-try_new-vs-model", n, 200, |bytes, want| {
+		let world = gen_world(&mut Src::new(bytes), &wcfg);
+		let steps = use_every_collection(&world);
+		let case = SeqCase { world, nthreads: 1, steps, fault: None };
+		let r = run_seq(&case, opts);
+		if r.invalid.is_some() {
+			return CaseReport { invalid: true, ..Default::default() };
+		}
+		let (violations, nontrivial, mut labels) = c07_eval(&case, &r);
+		labels.extend(case_labels(&case.world, &r).into_iter().filter(|l| l.starts_with("world.")));
+		labels.sort();
+		labels.dedup();
+		let replay = if violations.is_empty() { None } else { Some(json!({"engine": "seq", "opts": opts_json(&opts), "case": case, "trace": r.trace, "world": describe_world(&case.world)})) };
+		CaseReport {
+			violations,
+			nontrivial,
+			fp: fp_str(&format!("{:?}", case.world)),
+			labels,
+			inconclusive: r.inconclusive.clone(),
+			sample: if want && nontrivial { Some(json!({"world": describe_world(&case.world), "rejected": r.rejected, "model_units": Sem::new(&case.world).own_units})) } else { None },
+			replay,
+			..Default::default()
+		}
+	});
+	// exhaustive: every list over 4 leaves
+	let maxlen = tier.pick(5, 6) as usize;
+	let mut lists: Vec<(KindTag, Vec<usize>)> = Vec::new();
+	for kind in [KindTag::Boxed, KindTag::Ref, KindTag::Retry] {
+		let mut cur: Vec<Vec<usize>> = vec![vec![]];
+		for _ in 0..=maxlen {
+			for l in &cur {
+				lists.push((kind, l.clone()));
+			}
+			let mut next = Vec::new();
+			for l in &cur {
+				for x in 0..4 {
+					let mut l2 = l.clone();
+					l2.push(x);
+					next.push(l2);
+				}
+			}
+			cur = next;
+		}
+	}
+	ctx.enumerate("exhaustive-lists-over-4-leaves", lists, |(kind, list), want| {
+		let world = WorldSpec {
+			leaves: vec![LeafDecl { ty: LeafTy::R, wraps: 0 }; 4],
+			colls: vec![CollSpec { kind: *kind, ctor: Ctor::TryNew, cont: Cont::Vec, content: Content::ByRef(list.iter().map(|i| MemberSpec::Leaf(*i)).collect()), pois: false }],
+		};
+		let steps = use_every_collection(&world);
+		let case = SeqCase { world, nthreads: 1, steps, fault: None };
+		let r = run_seq(&case, opts);
+		let (violations, nontrivial, labels) = c07_eval(&case, &r);
+		let replay = if violations.is_empty() { None } else { Some(json!({"engine": "seq", "opts": opts_json(&opts), "case": case, "trace": r.trace, "world": describe_world(&case.world)})) };
+		CaseReport {
+			violations,
+			nontrivial,
+			fp: fp_str(&format!("{:?}", case.world)),
+			labels,
+			sample: if want && nontrivial { Some(json!({"world": describe_world(&case.world), "rejected": r.rejected})) } else { None },
+			replay,
+			..Default::default()
+		}
+	});
+	ctx.extra.insert("exhaustive_slice".into(), json!(format!("all member lists of length 0..={maxlen} over 4 RwLock leaves x {{Boxed, Ref, Retry}}::try_new")));
+	ctx.require_label("c07.dup_nonadjacent", 1000);
+	ctx.require_label("c07.dup_hidden_in_nested_or_wrapper", 1000);
 	ctx.finish()
 }
